@@ -7,6 +7,7 @@ from common import *  # noqa
 
 from qstrader.broker.simulated_broker import SimulatedBroker
 from qstrader.broker.portfolio.portfolio import Portfolio
+from qstrader.broker.portfolio.position import Position
 from qstrader.broker.transaction.transaction import Transaction
 from qstrader.broker.fee_model.zero_fee_model import ZeroFeeModel
 from qstrader.broker.fee_model.percent_fee_model import PercentFeeModel
@@ -278,7 +279,26 @@ def run_portfolio(c):
             probe.append([a, num(newp), num(pos.current_price), num(pos.net_quantity), num(d[a]['market_value']), num(pf.total_market_value)])
         except Exception as e:
             probe.append([a] + errname(e))
-    return {'snap0': snap0, 'steps': steps, 'hist': hist, 'probe': probe, 'sparse_reads': sparse}
+    # a position restored from its stored fields through the documented constructor (arguments in the documented order)
+    # is the same position: same figures now, and after one more fill and one more mark
+    restored = []
+    for a, pos in list(pf.pos_handler.positions.items()):
+        try:
+            twin = Position(pos.asset, pos.current_price, pos.current_dt, pos.buy_quantity, pos.sell_quantity,
+                            pos.avg_bought, pos.avg_sold, pos.buy_commission, pos.sell_commission)
+            if pos_snap(a, twin) != pos_snap(a, pos):
+                restored.append([a, 'as restored', pos_snap(a, twin), pos_snap(a, pos)])
+                continue
+            q = 3 if float(pos.net_quantity) <= 0 else -2
+            p0, t0 = float(pos.current_price), pos.current_dt
+            for p_ in (twin, pos):
+                p_.transact(Transaction(a, q, t0, p0 * 1.125, 'oid', commission=0.5))
+                p_.update_current_price(p0 * 0.875)
+            if pos_snap(a, twin) != pos_snap(a, pos):
+                restored.append([a, 'one fill and one mark later', pos_snap(a, twin), pos_snap(a, pos)])
+        except Exception as e:
+            restored.append([a] + errname(e))
+    return {'snap0': snap0, 'steps': steps, 'hist': hist, 'probe': probe, 'sparse_reads': sparse, 'restored': restored}
 
 
 def handler(c):
